@@ -75,6 +75,31 @@ def stepOp (mc : MCfg) (m : Meter) : List String → Option (Meter × String)
     let res := mcollect mc m r
     let mds := m.keys.filterMap fun k => (res.2 k).map fun md => showMD (label k) md
     pure (res.1, "[" ++ " | ".intercalate (sortBy (fun (a b : String) => a < b) mds) ++ "]")
+  | ["race", h, t, n, r, k] => do
+    -- the real-thread run of the harness; by `sched_conservation` / `sched_no_lost_update` its schedule-independent
+    -- summary is what the sequential run "collect r ; all the adds ; collect r" yields
+    let h ← h.toNat?
+    let t ← t.toNat?
+    let n ← n.toNat?
+    let r ← r.toNat?
+    let k ← k.toNat?
+    let _ ← m.handles[h]?
+    if t < 1 ∨ t > 4 ∨ n > 5000 ∨ r ≥ mc.temps.length ∨ k < 1 ∨ k > 64 then none else
+    let isDelta := mc.cfg.temp r = .delta
+    let c1 := mcollect mc m r
+    let m1 := (List.range t).foldl (fun m th => (List.range n).foldl (fun m _ => madd m h (th % 3 + 1) 1) m) c1.1
+    let m2 := madd m1 h 1 1
+    let m3 := { m2 with collects := m2.collects + (k - 1) }
+    let c2 := mcollect mc m3 r
+    let parts := m3.keys.filterMap fun key =>
+      match c1.2 key, c2.2 key with
+      | none, none => none
+      | o1, o2 =>
+        let p1 := (o1.map (·.points)).getD []
+        let p2 := (o2.map (·.points)).getD []
+        let pts := if isDelta then Otel.Temporal.mergeInto p1 p2 else (if o2.isSome then p2 else p1)
+        some (label key ++ " " ++ showPoints pts)
+    pure (c2.1, "race [" ++ " | ".intercalate (sortBy (fun (a b : String) => a < b) parts) ++ "]")
   | _ => none
 
 def run (mc : MCfg) : Meter → List (List String) → List String → Option (List String)
